@@ -205,8 +205,9 @@ void F___cxa_rethrow(void) { vf_exc = vf_caught ? vf_caught : 2; }
 void F___cxa_free_exception(char* p) { }
 char* F___cxa_allocate_exception(uint64_t n) { return vf_excobj; }
 void F___cxa_throw(char* obj, char* tinfo, char* dtor) { vf_exc = 2; }
-uint32_t F___cxa_guard_acquire(char* g) { return *(uint8_t*)g == 0; }
-void F___cxa_guard_release(char* g) { *(uint8_t*)g = 1; }
+int vf_guard_depth = 0;     /* > 0 while a C++11 thread-safe static initialisation is in progress */
+uint32_t F___cxa_guard_acquire(char* g) { if (*(uint8_t*)g == 0) { vf_guard_depth++; return 1; } return 0; }
+void F___cxa_guard_release(char* g) { *(uint8_t*)g = 1; vf_guard_depth--; }
 void F___cxa_guard_abort(char* g) { }
 uint32_t F___cxa_atexit(char* f, char* a, char* d) { return 0; }
 
